@@ -663,6 +663,10 @@ func main() {
 	bz, _ := json.MarshalIndent(ev, "", " ")
 	os.MkdirAll(root()+"/evidence", 0o755)
 	os.WriteFile(root()+"/evidence/C20.json", bz, 0o644)
+	if tier == "thorough" {
+		os.MkdirAll(root()+"/evidence/thorough", 0o755)
+		os.WriteFile(root()+"/evidence/thorough/C20.json", bz, 0o644)
+	}
 	fmt.Printf("C20 %s: schedules=%d points=%d outcomes=%d bound=%d median_evals=%d race=%s violations=%d wall=%.1fs\n", tier, st.Schedules, st.Points, len(st.Outcomes), completed, evals, raceOut, unknown, time.Since(start).Seconds())
 	os.Exit(exit)
 }
